@@ -307,6 +307,10 @@ def translate_pattern(pattern: str, flags: int = 0, xsd_version: str = '1.0',
             else:
                 msg = "invalid escape sequence {!r} at position {}: {!r}"
                 raise RegexError(msg.format('\\' + pattern[pos], pos - 1, pattern))
+        elif flags & re.VERBOSE and ch in '#\x0b\x0c':
+            # not white space for the x flag of XPath: protected from Python's verbose mode,
+            # where '#' starts a comment and VT and FF are ignored
+            regex.append('\\#' if ch == '#' else '\\x%02x' % ord(ch))
         else:
             regex.append(ch)
         pos += 1
